@@ -21,3 +21,18 @@ func (d *dispatcher) VerifResident() []int {
 func (d *dispatcher) VerifZoneSize() uint64 {
 	return d.zoneSize
 }
+
+// VerifDefaultFilterSource returns the source of the default content-type filter.
+func VerifDefaultFilterSource() string {
+	return defaultCompressContentTypeFilter.String()
+}
+
+// VerifShouldCompressed exposes shouldCompressed.
+func (resp *HTTPResponse) VerifShouldCompressed() bool {
+	return resp.shouldCompressed()
+}
+
+// VerifGetBodyByAcceptEncoding exposes getBodyByAcceptEncoding.
+func (resp *HTTPResponse) VerifGetBodyByAcceptEncoding(acceptEncoding string) (string, []byte, error) {
+	return resp.getBodyByAcceptEncoding(acceptEncoding)
+}
